@@ -20,6 +20,9 @@ CHECKS={
  "C01":("model_checking",E1,"bounded-exhaustive operation-sequence exploration of the real logger",
         "All words over {write(len), trigger_rotation, flush, clock+1s} up to depth 4 (quick) / 5 (thorough) for naming x criterion x sync write mode (plus line ending x name shapes at a smaller depth) are executed on the real Logger; after every flush and after shutdown the concatenation of the family files in documented age order must equal the accepted lines byte for byte.",
         "Bounds: size limit 20, buffer capacities 16/64, Age::Second, single thread, Cleanup::Never; age order and family membership come from a reference classifier written from the documentation.","4 C01"),
+ "C06":("model_checking",E1,"bounded-exhaustive exploration of restart histories (directory = state) on the real logger",
+        "Every sequence of up to 3 (quick) / 4 (thorough) runs, each run = append on/off x clock +0/+1 s x shape {no write, W, WWW, W R W}, is executed on one directory by the real logger for naming x cleanup (Never, KeepLogFiles, KeepCompressedFiles, KeepLogAndCompressedFiles; synchronous) x three file-name shapes plus the non-rotating file; after every run: files that existed keep their content (only the file appended to may grow), and the decompressed stream in age order equals all accepted records (minus a removable prefix with a cleanup limit; minus the documented truncation).",
+        "Virtual clock; size limit 15 with 10-byte lines; direct write mode; names freed by the cleanup limit may be used again.","4 C06"),
  "C08":("model_checking",E1,"bounded-exhaustive exploration of record-length sequences against a reference partition",
         "All sequences of line lengths over {1,2,N-1,N,N+1,3N} up to depth 3-4 (quick) / 5-6 (thorough) for N in {0,1,10,25} x write modes (direct, buffered below/at/above N, async) x naming x start state (fresh / append onto 0,N-1,N,N+1,2N bytes) x Size|AgeOrSize x LF|CRLF run on the real logger; the files in age order must equal the partition predicted by `if cur > N {rotate}`.",
         "Virtual clock frozen; observation after shutdown(); values of N and capacities limited to the boundary-placed ones.","4 C08"),
